@@ -131,8 +131,9 @@ package api
 //@   modifies nothing
 //@ extern proto.Unmarshal(b, m)
 //@   modifies *m
+// (C01/C14: this is the stored form of every pinset entry and of every snapshot - what dsstate.Add writes)
 //@ func (pin *Pin) ProtoMarshal
-//@   property C08
+//@   property C08 C01 C14
 //@   requires pin != nil
 //@   loop 1 (range pin.Allocations)
 //@     invariant len(allocs) == len(pin.Allocations) && forall j int :: 0 <= j && j < idx1 ==> same(allocs[j], libfn("peer.ID.Marshal", 0, pin.Allocations[j]))
@@ -142,7 +143,7 @@ package api
 //@   modifies nothing
 
 //@ func (pin *Pin) ProtoUnmarshal
-//@   property C08
+//@   property C08 C01 C14
 //@   requires pin != nil
 //@   loop 1 (range pbAllocs)
 //@     invariant len(allocs) == len(pbAllocs) && forall j int :: 0 <= j && j < idx1 ==> allocs[j] == libfn("peer.IDFromBytes", 0, pbAllocs[j])
@@ -159,7 +160,7 @@ package api
 //@ spec func wellFormedPin(p Pin) bool = knownType(p.Type) && p.Cid != cid.Undef && (p.Reference != nil ==> *p.Reference != cid.Undef) && p.Mode == ite(p.MaxDepth == 0, PinModeDirect, PinModeRecursive) && (p.ExpireAt == zerotime() || p.ExpireAt == unixZero || unixSecs(p.ExpireAt) > 0)
 //@ spec func samePin(p Pin, q Pin) bool = q.Cid == p.Cid && q.Type == p.Type && len(q.Allocations) == len(p.Allocations) && (forall i int :: 0 <= i && i < len(p.Allocations) ==> q.Allocations[i] == p.Allocations[i]) && q.MaxDepth == p.MaxDepth && (q.Reference == nil <==> p.Reference == nil) && (p.Reference != nil ==> *q.Reference == *p.Reference) && q.ReplicationFactorMin == p.ReplicationFactorMin && q.ReplicationFactorMax == p.ReplicationFactorMax && q.Name == p.Name && q.ShardSize == p.ShardSize && q.Metadata == p.Metadata && q.PinUpdate == p.PinUpdate && q.Mode == p.Mode && len(q.Origins) == len(p.Origins) && (forall i int :: 0 <= i && i < len(p.Origins) ==> maEqual(q.Origins[i], p.Origins[i])) && (p.ExpireAt == zerotime() || p.ExpireAt == unixZero ==> q.ExpireAt == zerotime()) && (p.ExpireAt != zerotime() && p.ExpireAt != unixZero ==> unixSecs(q.ExpireAt) == unixSecs(p.ExpireAt))
 //@ lemma pin_protobuf_roundtrip: forall p Pin, b pb.Pin, o pb.PinOptions, q Pin, q0 Pin :: libraryInverses() && wellFormedPin(p) && q0.PinUpdate == cid.Undef && q0.ExpireAt == zerotime() && pbEncodes(b, o, p) && pbDecodes(b, o, q, q0) ==> samePin(p, q)
-//@   property C08
+//@   property C08 C01 C14
 
 // ---- "every record exchanged between peers and clients ... decodes to an equal value": type obligations ----
 // every field of every exchanged record has a static type the msgpack (RPC, Raft log) and JSON (REST, export) codecs
